@@ -37,7 +37,11 @@ DynNested == {SeqV(TTup(<<TDyn, TNum>>), <<DynVal, NumV(4)>>), SeqV(TTup(<<TDyn,
               SeqV(TTup(<<TDyn>>), <<DynVal>>), SeqV(TTup(<<TDyn, TNum>>), <<Null(TDyn), NumV(4)>>), MapV(TObj([a |-> TDyn]), [a |-> DynVal]),
               MapV(TObj([a |-> TDyn, b |-> TStr]), [a |-> Null(TDyn), b |-> StrV(<<"a">>)]), Unk(TList(TDyn), NoRf), Unk(TMap(TDyn), [null |-> "F"]),
               Null(TList(TDyn)), SeqV(TList(TDyn), <<>>), DynVal, Null(TDyn), SeqV(TTup(<<TTup(<<TDyn>>)>>), <<SeqV(TTup(<<TDyn>>), <<DynVal>>)>>)}
-DynLines == {[vals |-> <<v>>, tys |-> <<TDyn, v.ty>>] : v \in DynNested}
+\* collections longer than any preallocation limit of the decoder (1024), alone and followed by a sibling
+LongList == SeqV(TList(TNum), [i \in 1..1030 |-> NumV(4 * (i % 3))])
+LongVals == {LongList, SeqV(TTup(<<TList(TNum), TStr>>), <<LongList, StrV(<<"a">>)>>), SeqV(TSet(TNum), [i \in 1..1030 |-> NumV(4 * i)]),
+             MapV(TObj([a |-> TList(TNum), b |-> TNum]), [a |-> LongList, b |-> NumV(8)])}
+DynLines == {[vals |-> <<v>>, tys |-> <<TDyn, v.ty>>] : v \in DynNested \cup LongVals}
 Line(t) == [vals |-> SetToSeq(Base(t) \cup Marked(t)), tys |-> SetToSeq({t} \cup DynAtM(t))]
 ASSUME LET out == [j \in 1..Len(Mine) |-> Line(TS[Mine[j]])] \o (IF ShardI = 0 THEN SetToSeq(DynLines) ELSE <<>>) IN ndJsonSerialize(IOEnv.VOUT, out) /\ PrintT(<<"GEN", Len(out)>>)
 VARIABLE x
